@@ -24,13 +24,13 @@ EXPLANATION = (
     "Element-wise clauses at every fixed index i (mask[i] false), proved by z3 on the real bodies for all real values: the completed vector carries the stored value at i "
     "(1-d and batch); after a nested optimization the stored vector and the evaluated vector are the inner result; every sampler's variable mask is a subset of the variable "
     "mask; every row sent to the evaluator in a gradient evaluation carries x_i at i (for every boundary type, given the sampler contract 'zero outside its mask'); expanded "
-    "gradients are exactly 0 at i; the optimizer receives only the free columns of gradients, initial values and bounds. All masks for N <= 3 are enumerated."
+    "gradients are exactly 0 at i; the optimizer receives only the free columns of gradients, initial values and bounds. All masks for N <= 3 (4 in the thorough tier) are enumerated."
 )
 ASSUMPTIONS = [
     "sampler contract: generate_samples is zero outside the sampler's mask (C17 for the built-in sampler)",
     "initial values lie inside the bounds (quantifier of C09); floats as reals",
     "scipy.optimize.minimize / differential_evolution call only the callables they are given with vectors of the length of x0 (library contract)",
-    "all masks enumerated for N <= 3 (bounded in N only; the code is element-wise in the variable index)",
+    "all masks enumerated for N <= 3 / 4 (bounded in N only; the code is element-wise in the variable index)",
 ]
 
 
@@ -373,8 +373,8 @@ SCENARIOS = [
 
 MANIFEST = {
     "category": "proof",
-    "text": "Deductive: for every mask over N <= 3 variables the element-wise clauses of C09 (completed vectors, nested update, sampler masks, rows sent to the evaluator, "
+    "text": "Deductive: for every mask over N <= 3 (thorough: 4) variables the element-wise clauses of C09 (completed vectors, nested update, sampler masks, rows sent to the evaluator, "
             "reported variables/perturbed variables/gradients, expanded gradients exactly zero, arguments handed to SciPy) are discharged by z3 on the real bodies for all real values.",
-    "note": "sampler 'zero outside its mask' assumed here (C17); SciPy assumed to call only what it is given; floats as reals; masks enumerated for N <= 3",
+    "note": "sampler 'zero outside its mask' assumed here (C17); SciPy assumed to call only what it is given; floats as reals; masks enumerated for N <= 3 (4 thorough)",
     "technique": "contract-based deductive verification: symbolic execution of the real source under sidecar contracts, VCs discharged by z3/cvc5; bounded run-time contract checking as stand-in",
 }
